@@ -193,6 +193,7 @@ def rule_code_table(ctx, rep, config="c-lib"):
                 sites.append((f, i, code_name[const_int(i.args[0])]))
     rep.cover(p, reach)
     matched = set()
+    unclassified = set()     # codes with a site the table could not classify (renamed locals, restructured test): no verdict about their rows
     modes = {}
     n = 0
     per_fn = {}
@@ -225,6 +226,7 @@ def rule_code_table(ctx, rep, config="c-lib"):
                 cname, shown, [c for c in conds if (set(_atoms(c)) & set(a for x in missing for a in _atoms(x))) or any(x.startswith(("re:", "n2re:")) for x in missing)]),
                 where=i.where(), witness=[i.where()] + conds)
         else:
+            unclassified.add(cname)
             rep.broke("C10-codes", "site %s of %s is controlled by conditions of a structure the table does not know: %s" % (i.where(), cname, conds))
     # a defect documented without reference to the strictness of the check is detected in both modes
     for (cname, si), lst in sorted(modes.items()):
@@ -244,6 +246,8 @@ def rule_code_table(ctx, rep, config="c-lib"):
             key = "table/%s/%d" % (cname, si + 1)
             if (cname, si) in matched:
                 rep.ok("C10-codes", key, nontrivial=False)
+            elif cname in unclassified:
+                pass
             else:
                 rep.violation("C10-codes", key, "no reachable check implements the documented defect `%s' under %s: such a grammar is accepted (or rejected with another code)" % (
                     cname, [SPEC_TEXT.get(c, c) for c in spec] if spec else "a description syntax error"), where=m.functions["yaep_read_grammar"].where())
@@ -294,7 +298,7 @@ def rule_fixpoints(ctx, rep, config="c-lib"):
                 for bn in L["body"]:
                     for i in f.bmap[bn].insts:
                         v = i.d.get("var")
-                        if v and "chang" in v:
+                        if _is_flag(f, v):
                             flags.add(v)
                 if not flags:
                     continue
@@ -330,7 +334,7 @@ def rule_fixpoints(ctx, rep, config="c-lib"):
             for bn in L["body"]:
                 for i in f.bmap[bn].insts:
                     v = i.d.get("var")
-                    if not v or "chang" not in v or i.op in ("phi", "alloca"):
+                    if not _is_flag(f, v) or i.op in ("phi", "alloca"):
                         continue
                     n += 1
                     key = "%s/%s-accumulates#%d" % (fn, v, n)
@@ -374,7 +378,7 @@ def rule_fixpoints(ctx, rep, config="c-lib"):
         for bn in L["body"]:
             for i in f.bmap[bn].insts:
                 v = i.d.get("var")
-                if not v or "chang" not in v or i.op in ("phi", "alloca"):
+                if not _is_flag(f, v) or i.op in ("phi", "alloca"):
                     continue
                 nacc += 1
                 ok = i.op == "or" and any((f.inst(strip_int_casts(f, o)) is not None and f.inst(strip_int_casts(f, o)).d.get("var") == v) for o in i.ops)
@@ -384,7 +388,7 @@ def rule_fixpoints(ctx, rep, config="c-lib"):
                     rep.violation("R10", "term_set_or/%s-accumulates#%d" % (v, nacc), "term_set_or overwrites its result `%s' for every word of the set: it reports only "
                                   "whether the last word changed -- with more terminals than bits in a word the FIRST / FOLLOW fixpoint stops while sets still grow" % v,
                                   where=i.where(), witness=[i.where()])
-    phis = [i for L in f.loops() for i in f.bmap[L["header"]].insts if i.op == "phi" and "chang" in (i.d.get("var") or "")]
+    phis = [i for L in f.loops() for i in f.bmap[L["header"]].insts if i.op == "phi" and _is_flag(f, i.d.get("var"))]
     if not phis and not nacc:
         raise AnalysisBroken("R10: the result flag of term_set_or was not found")
     if not nacc:
@@ -394,11 +398,11 @@ def rule_fixpoints(ctx, rep, config="c-lib"):
     nst = 0
     dom = f.dominators() if hasattr(f, "dominators") else None
     for L in f.loops():
-        flagphis = [i for bn in L["body"] for i in f.bmap[bn].insts if i.op == "phi" and "chang" in (i.d.get("var") or "")]
+        flagphis = [i for bn in L["body"] for i in f.bmap[bn].insts if i.op == "phi" and _is_flag(f, i.d.get("var"))]
         if not flagphis:
             continue
         inner = [L2 for L2 in f.loops() if L2 is not L and set(L2["body"]) < set(L["body"]) and any(
-            i.op == "phi" and "chang" in (i.d.get("var") or "") for bn in L2["body"] for i in f.bmap[bn].insts)]
+            i.op == "phi" and _is_flag(f, i.d.get("var")) for bn in L2["body"] for i in f.bmap[bn].insts)]
         if inner:
             continue       # the innermost loop that carries the flag
         for bn in L["body"]:
@@ -413,7 +417,7 @@ def rule_fixpoints(ctx, rep, config="c-lib"):
                 setters = [pb for ph in flagphis for (v, pb) in ph.d["incoming"] if const_int(v) not in (None, 0)]
                 good = any(pb == bn or _dominates(f, bn, pb) for pb in setters)
                 # `flag |= (new != old)' form
-                good = good or any(i.op == "or" and "chang" in (i.d.get("var") or "") and (b2 == bn or _dominates(f, bn, b2))
+                good = good or any(i.op == "or" and _is_flag(f, i.d.get("var")) and (b2 == bn or _dominates(f, bn, b2))
                                    for b2 in L["body"] for i in f.bmap[b2].insts)
                 key = "expand_new_start_set/state-store-flagged#%d" % nst
                 if good:
@@ -469,6 +473,64 @@ def rule_fixpoints(ctx, rep, config="c-lib"):
                     rep.violation("R10", key, "a loop of %s is left by a test that does not depend on the loop's own element (nothing in the condition changes from one "
                                   "iteration to the next): the loop examines the wrong element -- e.g. the enclosing loop's -- instead of each of its own" % fn,
                                   where=t.where(), witness=[t.where()])
+    # the same for a scan that is stopped through a flag instead of a break:  `if (cond) go_on = FALSE;'  -- cond depends on the loop's element
+    for fn in FUNCS:
+        f = p.fn(fn)
+        idom = f.idom()
+        for L in f.loops():
+            hdr = f.bmap[L["header"]]
+            hph = [i for i in hdr.insts if i.op == "phi"]
+            flagish = []
+            for h in hph:
+                outside = [v for (v, pb) in h.d["incoming"] if pb not in L["body"]]
+                if outside and all(const_int(v) is not None for v in outside) and h.ty in ("i32", "i8", "i1") and _only_constants(f, h, L):
+                    flagish.append(h)
+            for H in flagish:
+                # is the flag read by a condition inside the loop (it steers later iterations)?
+                steers = any(u.op == "icmp" or u.op == "br" for u in f.uses().get(H.id, []))
+                if not steers:
+                    continue
+                for bn in sorted(L["body"]):
+                    for P in f.bmap[bn].insts:
+                        if P.op != "phi" or P is H or len(P.d["incoming"]) != 2:
+                            continue
+                        vals = [v for (v, _) in P.d["incoming"]]
+                        if not (any(const_int(v) == 0 for v in vals) and any(strip_int_casts(f, v).get("v") == H.id for v in vals)):
+                            continue
+                        # P feeds H
+                        if not any(strip_int_casts(f, v).get("v") == P.id or _reaches_phi(f, v, P.id, L) for (v, pb) in H.d["incoming"] if pb in L["body"]):
+                            continue
+                        d = idom.get(bn)
+                        t = f.bmap[d].term if d else None
+                        if t is None or t.op != "br" or len(t.ops) != 3:
+                            continue
+                        inner_defs = set(i.id for b2 in L["body"] for i in f.bmap[b2].insts)
+                        others = set(x.id for x in hph if x is not H and x not in flagish)
+                        seen, work, dep, calls = set(), [t.ops[0]], False, False
+                        while work:
+                            o = work.pop()
+                            if o.get("k") != "i" or o["v"] in seen:
+                                continue
+                            seen.add(o["v"])
+                            if o["v"] in others:
+                                dep = True
+                                break
+                            ii = f.insts.get(o["v"])
+                            if ii is None or ii.id not in inner_defs or ii.id == H.id:
+                                continue
+                            if ii.is_call():
+                                calls = True
+                            for x in (ii.d.get("ops") or []) + [v for (v, _) in ii.d.get("incoming", [])] + ([ii.d["base"]] if "base" in ii.d else []) + \
+                                    [st[k] for st in ii.d.get("path", []) for k in ("idx", "ptr") if k in st] + list(ii.d.get("args") or []):
+                                work.append(x)
+                        n += 1
+                        key = "%s/flag-stop-depends-on-element@%s" % (fn, bn)
+                        if dep or calls:
+                            rep.ok("R10", key, nontrivial=True)
+                        else:
+                            rep.violation("R10", key, "a scan of %s is stopped (its `go on' flag `%s' is cleared) by a test that does not depend on the scan's own element: "
+                                          "the decision is taken from a value of the enclosing loop -- e.g. the rule's left-hand side instead of the symbol looked at" % (
+                                              fn, H.d.get("var") or "?"), where=t.where(), witness=[t.where()])
     # accessibility reaches every symbol of a right-hand side: the loop that propagates it is not left early
     f = p.fn("set_empty_access_derives")
     acc = [s_ for s_ in f.all_insts() if s_.op == "store" and (resolve_addr(f, s_.ops[1]).last_field() or "").endswith("access_p") and const_int(s_.ops[0]) == 1]
@@ -549,7 +611,7 @@ def rule_fixpoints(ctx, rep, config="c-lib"):
                         seen.add(x)
                         for u in f.uses().get(x, []):
                             if u.op in ("or", "phi", "zext", "trunc", "icmp", "select"):
-                                if "chang" in (u.d.get("var") or ""):
+                                if _is_flag(f, u.d.get("var")):
                                     used = True
                                 work.append(u.id)
                             elif u.op in ("br", "store"):
@@ -609,6 +671,41 @@ def rule_fixpoints(ctx, rep, config="c-lib"):
     rep.floor("R10", "fixpoint obligations", n, 8)
 
 
+_FLAGS = {}
+
+
+def _is_flag(f, v):
+    """is the source variable v a change flag of f?  By name (`chang' in it), or by role: a variable whose truth value is the continue-condition of a do-while
+    loop (`do { ... } while (more);'), or the variable a boolean helper returns (term_set_or)"""
+    if not v:
+        return False
+    if "chang" in v:
+        return True
+    key = (id(f), f.name)
+    if key not in _FLAGS:
+        names = set()
+        for L in f.loops():
+            for la in L["latches"]:
+                t = f.bmap[la].term
+                if t is None or t.op != "br" or len(t.ops) != 3:
+                    continue
+                c = f.inst(t.ops[0])
+                # a truth test of one variable: icmp ne x, 0 (or the i1 itself)
+                x = None
+                if c is not None and c.op == "icmp" and c.d["pred"] in ("ne", "eq") and const_int(c.ops[1]) == 0:
+                    x = f.inst(strip_int_casts(f, c.ops[0]))
+                if x is not None and x.op in ("phi", "or", "zext", "select") and x.d.get("var") and x.ty in ("i32", "i8", "i1"):
+                    names.add(x.d["var"])
+        if f.name == "term_set_or":
+            for r in f.all_insts():
+                if r.op == "ret" and r.ops:
+                    x = f.inst(strip_int_casts(f, r.ops[0]))
+                    if x is not None and x.d.get("var"):
+                        names.add(x.d["var"])
+        _FLAGS[key] = names
+    return v in _FLAGS[key]
+
+
 def _flag_in_exit_chain(f, L, flag):
     for bn in L["body"]:
         tt = f.bmap[bn].term
@@ -641,3 +738,34 @@ def _dominates(f, a, b):
             return True
         cur = idom.get(cur)
     return False
+
+
+def _reaches_phi(f, v, target, L, depth=0):
+    x = f.inst(strip_int_casts(f, v))
+    if x is None or depth > 4 or x.op != "phi" or x.block.name not in L["body"]:
+        return False
+    if x.id == target:
+        return True
+    return any(_reaches_phi(f, w, target, L, depth + 1) for (w, _) in x.d["incoming"])
+
+
+def _only_constants(f, h, L):
+    """a header phi whose values are constants only (a flag), not computed (a counter)"""
+    seen, work = set([h.id]), [v for (v, pb) in h.d["incoming"] if pb in L["body"]]
+    while work:
+        v = work.pop()
+        if const_int(v) is not None:
+            continue
+        x = f.inst(strip_int_casts(f, v))
+        if x is None:
+            return False
+        if x.id in seen:
+            continue
+        seen.add(x.id)
+        if x.op == "phi" and x.block.name in L["body"]:
+            work.extend(w for (w, _) in x.d["incoming"])
+        elif x.op == "select":
+            work.extend(x.ops[1:3])
+        else:
+            return False
+    return True
